@@ -2,7 +2,7 @@
    Statements only; every proof is `exact <lemma>`; Print Assumptions under each. *)
 From Coq Require Import Reals List Bool String ZArith.
 From PV Require Import RNum Mode Tproj Restraints Gen_walk_R Gen_restraints_R Gen_walk_skel
-                       C07_kernels C07_restraints C05_skel.
+                       C07_kernels C07_restraints C05_skel Dfs C07_dfs.
 Import ListNotations.
 Open Scope R_scope.
 
@@ -66,6 +66,33 @@ Print Assumptions C07_accepted_target_in_window.
 Theorem C07_cyclic_uses_depth_first : search_tree_dfs_true = "nx.dfs_tree"%string.
 Proof. exact (proj1 gen_search_tree_dfs). Qed.
 Print Assumptions C07_cyclic_uses_depth_first.
+
+(* a ring-shaped molecule declared cyclic: for a ring of ANY size n >= 3, any node keys (node k, k < n, are the residues
+   in ring order from the root), any order of the two neighbours in every adjacency list, the depth-first search tree
+   from the root is a path through all n residues that starts with the root's first-listed neighbour a and ends at its
+   second-listed neighbour b; the pair restrained by _initialize_cylces -- (first edge's source, last edge's target) --
+   is (root, b), which the ring joins by the one edge the tree leaves out (the closing edge) *)
+Theorem C07_ring_closing_pair : forall (n : nat) (adj : Z -> list Z) (node : nat -> Z),
+  (3 <= n)%nat -> is_ring n adj node ->
+  exists a b, adj (node 0%nat) = [a; b] /\ a <> b /\
+    cycle_pair adj n (node 0%nat) = Some (node 0%nat, b) /\
+    List.length (tree_edges adj n (node 0%nat)) = (n - 1)%nat /\
+    hd_error (tree_edges adj n (node 0%nat)) = Some (node 0%nat, a) /\
+    ~ In (node 0%nat, b) (tree_edges adj n (node 0%nat)) /\
+    ~ In (b, node 0%nat) (tree_edges adj n (node 0%nat)) /\
+    (forall j, (j < n)%nat -> j <> 0%nat -> In (node j) (map snd (tree_edges adj n (node 0%nat)))).
+Proof. exact (fun n adj node Hn R => ring_cycle_pair n adj Hn node R). Qed.
+Print Assumptions C07_ring_closing_pair.
+
+(* (T) the pair that is restrained: first edge's source and last edge's target of the search tree, d = 0 *)
+Theorem C07_cycle_pair_is_first_source_last_target :
+  (cycle_nodes_def = "(list(molecule.search_tree.edges)[0][0], list(molecule.search_tree.edges)[-1][1])" /\
+   cycle_restraint_def = "(0.0, tolerance)")%string.
+Proof. exact gen_cycle_pair. Qed.
+Print Assumptions C07_cycle_pair_is_first_source_last_target.
+
+Example C07_ring_nonvacuous : is_ring 5 ex_ring_adj ex_ring_node /\ cycle_pair ex_ring_adj 5 7 = Some (7, 11)%Z.
+Proof. exact (conj ex_ring_is_ring (proj1 ex_ring_pair)). Qed.
 
 (* sampled end-to-end distances lie between one step and the contour length *)
 Theorem C07_ee_samples_in_range :
